@@ -372,10 +372,45 @@ func eqAtom(t *Term) (*Term, *Term, bool) {
 
 const flattenMax = 12
 
+// andMemo makes And() a function of its argument list: partition knowledge grows over time, so without
+// the memo a recomputation of the same conjunction later in a run could simplify differently and
+// relational harnesses (two histories, twin objects) would lose syntactic sharing.
+var andMemo = map[string]*Term{}
+
 func And(ts ...*Term) *Term {
+	if len(ts) == 2 {
+		a, b := ts[0], ts[1]
+		if a.IsTrue() {
+			return b
+		}
+		if b.IsTrue() {
+			return a
+		}
+		if a.IsFalse() || b.IsFalse() {
+			return False
+		}
+		if a == b {
+			return a
+		}
+	}
+	var key string
+	if len(ts) <= 48 {
+		var sb strings.Builder
+		for _, t := range ts {
+			sb.WriteString(strconv.Itoa(t.id))
+			sb.WriteByte(',')
+		}
+		key = sb.String()
+		if r, ok := andMemo[key]; ok {
+			return r
+		}
+	}
 	r := and0(ts...)
 	if debugAnd {
 		checkAnd(ts, r)
+	}
+	if key != "" {
+		andMemo[key] = r
 	}
 	return r
 }
@@ -385,6 +420,7 @@ func and0(ts ...*Term) *Term {
 	seen := map[int]bool{}
 	var eqs map[int]*Term
 	var flatPs []pset // memberships of flattened conjunctions that are registered atoms
+	flatSeen := map[int]bool{} // ids of nested conjunctions that were flattened
 	var add func(t *Term) bool
 	add = func(t *Term) bool {
 		if t.sort != SBool {
@@ -400,6 +436,10 @@ func and0(ts ...*Term) *Term {
 			if len(t.ps) > 0 {
 				flatPs = append(flatPs, t.ps...)
 			}
+			if seen[Not(t).id] {
+				return false
+			}
+			flatSeen[t.id] = true
 			for _, a := range t.args {
 				if !add(a) {
 					return false
@@ -412,7 +452,7 @@ func and0(ts ...*Term) *Term {
 		}
 		// complementary literal
 		if t.op == OpNot {
-			if seen[t.args[0].id] {
+			if seen[t.args[0].id] || flatSeen[t.args[0].id] {
 				return false
 			}
 		} else {
@@ -609,6 +649,7 @@ func and0(ts ...*Term) *Term {
 func Or(ts ...*Term) *Term {
 	out := make([]*Term, 0, len(ts))
 	seen := map[int]bool{}
+	flatSeen := map[int]bool{}
 	var add func(t *Term) bool
 	add = func(t *Term) bool {
 		if t.IsFalse() {
@@ -618,6 +659,10 @@ func Or(ts ...*Term) *Term {
 			return false
 		}
 		if t.op == OpOr && len(t.args) <= flattenMax {
+			if seen[Not(t).id] {
+				return false
+			}
+			flatSeen[t.id] = true
 			for _, a := range t.args {
 				if !add(a) {
 					return false
@@ -629,7 +674,7 @@ func Or(ts ...*Term) *Term {
 			return true
 		}
 		if t.op == OpNot {
-			if seen[t.args[0].id] {
+			if seen[t.args[0].id] || flatSeen[t.args[0].id] {
 				return false
 			}
 		} else if seen[Not(t).id] {
@@ -1129,6 +1174,20 @@ func foldFP(op Op, cs []*Term) *Term {
 	panic("foldFP")
 }
 
+// pureFP: floats are not lifted (no native folding across case lists); every float operation with a
+// non-constant operand reaches the solver in the FloatingPoint theory. Used by the thorough-tier
+// cross-checks of the native folding layer (DESIGN D-float).
+var pureFP = false
+
+func allConstTerms(args []*Term) bool {
+	for _, a := range args {
+		if a.op != OpConst {
+			return false
+		}
+	}
+	return true
+}
+
 func FPOp(op Op, args ...*Term) *Term {
 	rs := SFP
 	switch op {
@@ -1137,14 +1196,14 @@ func FPOp(op Op, args ...*Term) *Term {
 	case OpFPToInt:
 		rs = SBV
 	}
-	if allLiftable(args...) {
+	if allLiftable(args...) && (!pureFP || allConstTerms(args)) {
 		return lift(rs, func(cs []*Term) *Term { return foldFP(op, cs) }, args...)
 	}
 	return mkApp(op, rs, "", args...)
 }
 
 func FPFromBV(a *Term) *Term {
-	if a.Liftable() {
+	if a.Liftable() && (!pureFP || a.op == OpConst) {
 		return lift(SFP, func(cs []*Term) *Term { return FP(float64(cs[0].i)) }, a)
 	}
 	return mkApp(OpFPFromBV, SFP, "", a)
